@@ -11,6 +11,10 @@ import BSModel.Gen.Text
     c13 sc <elementClasses> <containers> <top|N> <base|N>     BeautifulSoup.string_container
     c13 interesting <containers> <name>                        Tag.__init__'s interesting_string_types
     c13 strip <cps>
+    c13 parseloop <containers> <preserve names ';'|-> <attempt>|<attempt>…
+        the retry loop of `BeautifulSoup.__init__` over the candidates of `prepare_markup` (C03's `parseLoop`, which starts
+        every attempt from `reset()`), run with `builderCfg`; attempt = `R:<events>` (rejected with ParserRejectedMarkup
+        after sending these events) or `A:<events>` (accepted); reply as `parsecls`, or `rejected` when none is accepted
     c13 iter <kinds> <ops|-> <cls> <interesting> <receiver label> <types> <edit templates ';'|->
         `for s in receiver._all_strings(False, types): <edit>` on the pointer heap after the history: the k-th string handed
         out is edited by the k-th template (cyclically; `$` = the label of that string, `_` = no edit; C01 op syntax);
@@ -303,7 +307,23 @@ def handleIter (kinds ops cls ints recv types edits : String) : String :=
           let tags := (List.range h'.next).filter (fun i => (h'.kind i).isTag)
           BS.Drv.C01.labels h' l ++ " | " ++ ",".intercalate (tags.map fun t => s!"{BS.Drv.C01.label h' t}:{BS.Drv.C01.labels h' (h'.kids t)}")
 
+open BS.Builder in
+def handleParseLoop (cont pres atts : String) : String :=
+  let cfg := parseCfg (parseContainers cont) ((splitNE ";" pres).map cps)
+  let parsed := (atts.splitOn "|").mapM fun a =>
+    let rej := a.startsWith "R:"
+    ((splitNE ";" (a.drop 2).toString).mapM parseEvent).map fun es => (⟨es, rej⟩ : Attempt)
+  match parsed with
+  | none => "bad-event"
+  | some as =>
+    match parseLoop cfg (St.init cfg) as with
+    | none => "rejected"
+    | some ds =>
+      let cs := ds.flatMap docClasses
+      if cs.isEmpty then "-" else ".".intercalate (cs.map toString)
+
 def handle : List String → String
+  | ["parseloop", cont, pres, atts] => handleParseLoop cont pres atts
   | ["iter", kinds, ops, cls, ints, recv, types, edits] => handleIter kinds ops cls ints recv types edits
   | ["parsecls", cont, pres, evs] => handleParseCls cont pres evs
   | ["scarg", dflt, arg] =>
@@ -313,6 +333,11 @@ def handle : List String → String
   | ["taginit", b, nm, param] => showInit (tagInitInteresting main (parseBuilder b) (cps nm) (parseInteresting param))
   | ["taginit", b, nm, param, cm] =>   -- a tag class whose MAIN_CONTENT_STRING_TYPES is `cm`
     showInit (tagInitInteresting (parseClsList (cm.drop 1).toString) (parseBuilder b) (cps nm) (parseInteresting param))
+  | ["pickledsc", pk, dflt, sc, truthy, htmlDflt] =>
+    (match pickledStringContainersObj (pk == "1") (parseContainers dflt) (parseContainers htmlDflt)
+        ⟨(if sc == "N" then none else some (parseContainers (sc.drop 2).toString)), truthy == "1"⟩ with
+     | none => "none"
+     | some l => "some " ++ showContainers l)
   | ["pickledsc", pk, dflt, sc] =>
     (match pickledStringContainers (pk == "1") (parseContainers dflt) (if sc == "N" then none else some (parseContainers (sc.drop 2).toString)) with
      | none => "none"
